@@ -97,7 +97,7 @@ impl<V: Val<A>, A: Ord> Default for Entry<V, A> {
 impl<V: Val<A>, A: Ord + Clone> Clone for Entry<V, A> {
     #[verifier::external_body]
     fn clone(&self) -> (r: Self)
-        ensures actor_ok::<A>() && clone_ok::<A>() ==> r.ck() == self.ck(), cloned(self.vl(), r.vl()),
+        ensures actor_ok::<A>() && clone_ok::<A>() ==> r.ck() == self.ck(), cloned(self.vl(), r.vl()), nz(self.ck()) ==> nz(r.ck()),
     {
         Entry { clock: self.clock.clone(), val: self.val.clone() }
     }
@@ -207,10 +207,33 @@ impl<K: Ord, V: Val<A>, A: Ord + Hash + Clone> CmRDT for Map<K, V, A> {
         &&& op is Up ==> forall|v: V| #[trigger] v.cm_inv() ==> v.cm_pre(&op->op)
     }
     open spec fn cm_post(old_: &Self, op: &Op<K, V, A>, new_: &Self) -> bool { apply_post_map(*old_, *op, *new_) }
+    open spec fn cm_vpre(&self, op: &Op<K, V, A>) -> bool { clone_ok::<A>() && (op is Up ==> forall|v: V| #[trigger] v.cm_inv() ==> v.cm_vpre(&op->op)) }
 
-    // validate_op: `.map_err(Ctor)?` chains -- see below
-    #[verifier::external_body]
-    fn validate_op(&self, op: &Self::Op) -> Result<(), Self::Validation> { unimplemented!() }
+//@extract fn src/map.rs "CmRDT for Map" validate_op
+    fn validate_op(&self, op: &Self::Op) -> /*@ (r: @*/ Result<(), Self::Validation> /*@ ) @*/
+    //@ ensures
+    //@     // C16: removes are always accepted; an update is rejected with SourceOrder exactly when its dot skips one of
+    //@     // its actor's dots at the map clock or at the key's entry clock (the second check is known finding F16-map)
+    //@     op is Rm ==> r is Ok,
+    //@     op is Up ==> ((r matches Err(CmRDTValidation::SourceOrder(_))) <==> (op->dot.counter > cnt(self.cl(), op->dot.actor) + 1 || op->dot.counter > cnt(self.ec(op->key), op->dot.actor) + 1)),
+    {
+        match op {
+            Op::Rm { .. } => Ok(()),
+            Op::Up { dot, key, op } => {
+                self.clock
+                    .validate_op(dot)
+                    .map_err( /*@ |e: crate::DotRange<A>| -> (o: CmRDTValidation<V, A>) ensures o == CmRDTValidation::<V, A>::SourceOrder(e) { @*/ CmRDTValidation::SourceOrder /*@ (e) } @*/ )?;
+                let entry = self.entries.get(key).cloned().unwrap_or_default();
+                //@ proof { if self.entries@.contains_key(*key) { assert(nz(self.entries@[*key].clock@) && self.entries@[*key].val.cm_inv()); assert(entry.ck() == self.entries@[*key].ck()); assert(cloned(self.entries@[*key].vl(), entry.vl())); assert(entry.val == self.entries@[*key].val); } else { assert(Entry::<V, A>::default.ensures((), entry)); assert(entry.ck() == SMap::<A, u64>::empty()); assert(V::default.ensures((), entry.vl())); } assert(entry.clock@ == self.ec(*key)); assert(entry.val.cm_inv()); assert(nz(entry.clock@)); }
+                entry
+                    .clock
+                    .validate_op(dot)
+                    .map_err( /*@ |e: crate::DotRange<A>| -> (o: CmRDTValidation<V, A>) ensures o == CmRDTValidation::<V, A>::SourceOrder(e) { @*/ CmRDTValidation::SourceOrder /*@ (e) } @*/ )?;
+                entry.val.validate_op(op).map_err( /*@ |e: <V as CmRDT>::Validation| -> (o: CmRDTValidation<V, A>) ensures o == CmRDTValidation::<V, A>::Value(e) { @*/ CmRDTValidation::Value /*@ (e) } @*/ )
+            }
+        }
+    }
+//@end
 
 //@extract fn src/map.rs "CmRDT for Map" apply
     fn apply(&mut self, op: Self::Op)
